@@ -183,8 +183,10 @@ done:
 			}
 
 		case conn := <-up.chConnected:
-			connected = conn
-			if conn {
+			// events of a connection that was closed meanwhile (sync disabled,
+			// URI changed) may still arrive, there is nothing to talk to then
+			connected = conn && up.ncRemote != nil
+			if connected {
 				syncTicker.Reset(time.Duration(up.config.Period) * time.Second)
 				err := up.syncNode("root", up.rootLocal.ID)
 				if err != nil {
@@ -233,6 +235,8 @@ done:
 					data.PointTypeDisabled:
 					// we need to restart the sync connection
 					up.disconnect()
+					connected = false
+					syncTicker.Stop()
 					connectTimer.Reset(10 * time.Millisecond)
 				case data.PointTypePeriod:
 					checkPeriod()
